@@ -50,6 +50,7 @@ import numpy as np
 
 from vt.core import np_rng_for, Recorder
 from vt.models import geodesy_model as M
+from vt.monitors import history
 
 ID = "C07"
 LEVEL = "exploration"
@@ -399,6 +400,13 @@ def call(F, fname, *a, **kw):
         for k, (v, b) in enumerate(zip(a, before)):
             if b is not None and not np.array_equal(v, b, equal_nan=True):
                 F.add("input-mutated", None, {"func": fname, "argument": k})
+                raise Abort()
+        _S["ncall"] = _S.get("ncall", 0) + 1
+        if _S["ncall"] % 5 == 0:
+            verdict, detail = history.reuse_check(getattr(_S["g"], fname), a, kw)
+            _S["hist_" + verdict] = _S.get("hist_" + verdict, 0) + 1
+            if verdict == "stale":
+                F.add("stale-state", None, dict(detail, func=fname))
                 raise Abort()
         return out
     except Breach as b:
@@ -1049,6 +1057,9 @@ def run_shard(spec, rec):
     ctx = Ctx(rec, spec)
     rng = np_rng_for(spec["seed"], "c07-" + spec["kind"], spec["shard"])
     {"conv": run_conv, "los": run_los, "dist": run_dist}[spec["kind"]](ctx, rng, int(spec["n"]))
+    for k in ("ok", "n/a", "stale"):
+        if _S.get("hist_" + k):
+            rec.count("history.reuse_" + k.replace("/", ""), _S.pop("hist_" + k))
 
 
 def replay(case, rec):
